@@ -123,8 +123,16 @@ class LockStep:
             op, args = self.g.next_op(self.walk, present)
         self.log.append((op, args))
         rec.journal(repr((self.describe(), self.log[-40:])))
-        rargs = tuple(gen.materialize(a, self.fam, self.impl, self.c, False)
-                      for a in args)
+        try:
+            rargs = tuple(gen.materialize(a, self.fam, self.impl, self.c,
+                                          False) for a in args)
+        except Exception as e:
+            # an operand container could not even be built from in-domain
+            # data
+            self.violation('operand-construction-raised', op=op,
+                           args=brief(args),
+                           detail='%s: %s' % (type(e).__name__, e))
+            return False
         margs = tuple(gen.materialize(a, self.fam, self.impl, self.m, True)
                       for a in args)
         before = self.walk
@@ -248,8 +256,93 @@ class LockStep:
                 return False
         return True
 
-    def run(self, n):
+    # -- deliberately failing single-key calls --------------------------
+    def bad_step(self):
+        """A writing call with an unusable key or value: it must raise and
+        leave the contents (and the structure) unchanged."""
+        from . import families as F
+        rng, rec, fam = self.rng, self.rec, self.fam
+        present = self.m.sorted_keys()
+        pal = getattr(self, '_pal', None)
+        if pal is None:
+            pal = self._pal = F.hostile_palette()
+        badkeys = [v for _, v in pal if not fam.key_ok(v) and
+                   not isinstance(v, F.Indexable)]
+        badvals = [v for _, v in pal if self.is_mapping and
+                   not fam.val_ok(v) and not isinstance(v, F.Indexable)]
+        good = rng.choice(present) if present and rng.random() < .5 \
+            else rng.choice(self.g.universe)
+        if self.is_mapping:
+            cands = []
+            if badkeys:
+                bk = rng.choice(badkeys)
+                cands += [('setitem', (bk, self.g._val())),
+                          ('setdefault', (bk, self.g._val())),
+                          ('delitem', (bk,)), ('pop', (bk,))]
+                if self.kind == 'BTree':
+                    cands.append(('insert', (bk, self.g._val())))
+            if badvals:
+                bv = rng.choice(badvals)
+                cands += [('setitem', (good, bv)), ('setitem', (good, bv)),
+                          ('setdefault', (good, bv))]
+                if self.kind == 'BTree':
+                    cands.append(('insert', (good, bv)))
+        else:
+            cands = []
+            if badkeys:
+                bk = rng.choice(badkeys)
+                cands += [('add', (bk,)), ('remove', (bk,)),
+                          ('sinsert', (bk,))]
+        if not cands:
+            return True
+        op, args = rng.choice(cands)
+        self.log.append((op, args))
+        rec.journal(repr((self.describe(), self.log[-40:])))
+        ro = call(self.c, op, args)
+        rec.evaluations += 1
+        rec.ev('bad-call')
+        try:
+            got = harness.contents(self.c, self.is_mapping)
+        except Exception as e:
+            self.violation('contents-raised', op=op, args=brief(args),
+                           detail='%s: %s' % (type(e).__name__, e))
+            return False
+        want = self.m.contents()
+        if ro[0] == 'exc':
+            rec.ev('bad-call-raised')
+            if not eq(got, want):
+                self.violation('failed-call-changed-contents', op=op,
+                               args=brief(args), outcome=ro[1],
+                               observed=brief(got, 300),
+                               expected=brief(want, 300))
+                return False
+        elif not eq(got, want):
+            # accepted after all (another property's business): follow it
+            self._set_model(got)
+        if self.structure:
+            errs, w = structural_checks(self.c, self.is_mapping,
+                                        self.use_check_module)
+            rec.ev('structure-checks')
+            if errs:
+                self.violation('structure', op=op, args=brief(args),
+                               outcome=ro[1] if ro[0] == 'exc' else 'ok',
+                               checker=errs[0][0], errors=errs[:4])
+                return False
+            self.walk = w
+        if (bool(self.c) != bool(want)) or len(self.c) != len(want):
+            self.violation('contents-mismatch', op=op, args=brief(args),
+                           outcome=ro[1] if ro[0] == 'exc' else 'ok',
+                           len=len(self.c), bool=bool(self.c),
+                           expected=brief(want, 200), observed=brief(got, 200))
+            return False
+        return True
+
+    def run(self, n, p_bad=0.0):
         for _ in range(n):
+            if p_bad and self.rng.random() < p_bad:
+                if not self.bad_step():
+                    return False
+                continue
             if not self.step():
                 return False
         return True
